@@ -274,6 +274,9 @@ func negotiateFeatures(ctx context.Context, s *Session, first, ws bool, features
 		}
 
 		mask, rw, err = data.feature.Negotiate(ctx, s, s.features[data.feature.Name.Space])
+		// Whether the session is ready is decided below from what was advertised,
+		// never by a feature.
+		mask &^= Ready
 		s.in.d = oldDecoder
 		if err == nil {
 			s.state |= mask
